@@ -3,7 +3,7 @@
 # Confirms: patch applies, builds, existing suite passes with it (test/e2e needs a cluster and is excluded,
 # as in BASELINE), demo fails with the patch and passes without. On success copies to /verif/seeded/<prop>-<n>/.
 export GOFLAGS=-mod=mod GOPROXY=off GOSUMDB=off GOTOOLCHAIN=local
-P=$1; N=$2; WT=/tmp/wt/$P; S=$WT/_seeded/$N
+P=$1; N=$2; WT=${3:-/tmp/wt/$P}; S=$WT/_seeded/$N
 cd $WT || exit 2
 git checkout -q -- . ; 
 DEMODIR=$(cat $S/demo_dir.txt | tr -d '\n ')
